@@ -33,6 +33,9 @@ def run(ctx, chk):
     r3(ctx, chk)
     r4(ctx, chk)
     r5(ctx, chk)
+    # R7: which locale reads the string (and its zone word) must not depend on earlier calls
+    from .c13 import previous_locales_flag_rule
+    previous_locales_flag_rule(ctx, chk, "C11.R7")
 
 
 def _spellings(name):
